@@ -8,6 +8,7 @@ import (
 	"io"
 	gofs "io/fs"
 	"strings"
+	"time"
 
 	"github.com/hack-pad/hackpadfs"
 	"github.com/hack-pad/hackpadfs/cache"
@@ -147,6 +148,41 @@ func c04Layers() []layer {
 		{"tar", readOps, func() (hackpadfs.FS, []hackpadfs.FS, func()) {
 			dest := newMem()
 			t, err := hptar.NewReaderFS(context.Background(), bytes.NewReader(tarOf(map[string][]byte{"f": {1, 2, 3}, "d/f": {4, 5}}, []string{"d"})),
+				hptar.ReaderFSOptions{UnarchiveFS: dest.(*mem.FS)})
+			if err != nil {
+				panic(err)
+			}
+			<-t.Done()
+			return t, []hackpadfs.FS{dest}, func() {}
+		}},
+		{"tar failed", readOps, func() (hackpadfs.FS, []hackpadfs.FS, func()) {
+			// an archive whose second header is garbage: unpacking has failed, every valid name reports that
+			// failure -- and an invalid name is still refused as invalid
+			dest := newMem()
+			good := tarOf(map[string][]byte{"f": {1, 2, 3}}, nil)
+			bad := append(append([]byte(nil), good[:1024]...), bytes.Repeat([]byte{0x5a}, 1024)...)
+			t, err := hptar.NewReaderFS(context.Background(), bytes.NewReader(bad), hptar.ReaderFSOptions{UnarchiveFS: dest.(*mem.FS)})
+			if err != nil {
+				panic(err)
+			}
+			<-t.Done()
+			if t.UnarchiveErr() == nil {
+				panic("tar failed layer: the archive unpacked without error")
+			}
+			// (a failed reader does not wait for the small-file writers it started: let the first entry land)
+			for i := 0; i < 2000; i++ {
+				if b, err := hackpadfs.ReadFile(dest, "f"); err == nil && len(b) == 3 {
+					break
+				}
+				time.Sleep(time.Millisecond)
+			}
+			return t, []hackpadfs.FS{dest}, func() {}
+		}},
+		{"tar cancelled", readOps, func() (hackpadfs.FS, []hackpadfs.FS, func()) {
+			dest := newMem()
+			ctx, cancel := context.WithCancel(context.Background())
+			cancel()
+			t, err := hptar.NewReaderFS(ctx, bytes.NewReader(tarOf(map[string][]byte{"f": {1, 2, 3}, "d/f": {4, 5}}, []string{"d"})),
 				hptar.ReaderFSOptions{UnarchiveFS: dest.(*mem.FS)})
 			if err != nil {
 				panic(err)
